@@ -47,33 +47,37 @@ TRUSTED_BASE = [
     "return only responses to the request - the latter is C18)",
 ]
 ASSUMPTIONS = [
-    "sync = async is established by the correspondence check only (same scripts, identical decision traces): partial",
+    "sync = async is established by the tie only: identical decision traces on the same scripts, and the two resolve bodies "
+    "are compared structurally at run time (equal modulo await / backend.sleep / async_query(backend=)): partial",
     "rotate off; the clock is monotone (the two 'time went backwards' branches of _compute_timeout are not modelled)",
     "a nameserver returns a response whose question is the request's (C18); responses are QueryMessages",
     "broken-server exclusion is per candidate name: the code rebuilds the server list for each candidate (DESIGN §7 C16)",
     "timeouts/lifetimes are exact binary fractions of a second in generated cases so that float and integer-millisecond arithmetic agree",
     "TSIG/EDNS request decoration, DoH/DoT/DoQ transports and resolv.conf parsing are outside the model",
-    "the back-off sleep is not clipped to the remaining lifetime by the code (recorded finding): theorems bound the overrun by one back-off",
+    "whether the back-off sleep is clipped to the remaining lifetime is observed on the working tree on every run "
+    "(ConstsC16.clipSleep); ends_within_lifetime is an obligation about that value; the unclipped variant of the model is retained",
 ]
 LEVEL = {
-    "text": "Lean 4 theorems (lean/Props/C16.lean, 23 statements, no sorry) over an executable model of _get_qnames_to_try, "
+    "text": "Lean 4 theorems (lean/Props/C16.lean, 27 statements, no sorry) over an executable model of _get_qnames_to_try, "
             "_Resolution.{next_request,next_nameserver,query_result}, _compute_timeout, the Resolver.resolve loop on an "
             "integer-millisecond clock driven by an arbitrary finite script of per-query outcomes with durations, "
-            "QueryMessage.resolve_chaining and the cache as a timed map: the loop ends within (2n+2)*candidates + "
-            "2n*ceil(lifetime/first back-off) + 1 iterations for every script (potential function); the clock at the end is "
-            "within one back-off of start+lifetime as shipped and within the lifetime with the sleep clipped; the result is "
-            "classified by the last step and no earlier query had an acceptable outcome; NXDOMAIN only if every candidate has "
-            "recorded NXDOMAIN evidence; over distinct servers a server that proved broken is never re-asked for the same "
-            "candidate and a truncated UDP reply is followed at once by one TCP query to the same server (trace monitor "
-            "accepted by every run); search/ndots candidate order; bounded CNAME chain with exact minimum TTL and negative TTL "
-            "from the closest SOA; the cache changes only under (candidate,type,class)/(candidate,ANY,class). Tied to the code by "
-            "scripted-nameserver correspondence on a virtual clock (sync and asyncio) and a back-off table observed on a real "
-            "_Resolution object on every run.",
-    "note": "sync = async is tie-only (partial). The strict reading of 'terminates within its lifetime' fails on the unchanged tree "
-            "(back-off sleep not clipped: recorded finding, counter-example proved by decide, bounded overrun proved). Trusted: Lean "
-            "kernel, statements in lean/Props/C16.lean, harness/props/C16.py + harness/vclock.py, harness/extract_C16.py.",
-    "technique": "Lean 4 proof (state-machine invariants, potential-function termination, trace monitor) + model-vs-implementation "
-                 "correspondence on scripted fault sequences",
+            "QueryMessage.resolve_chaining and the cache as a timed map. resolve = spec for every script, where spec is an "
+            "independent nested-recursion definition of the documented behaviour (candidate by candidate, round by round, server "
+            "by server; result, clock, cache and unread script all equal); the loop ends within a computed number of iterations "
+            "(potential function) and, for the code as it is (constants incl. the clipping of the back-off sleep regenerated on "
+            "every run), never later than start + lifetime; result classification by the last step; NXDOMAIN only if every "
+            "candidate has evidence, traced to a validated NXDOMAIN response of this resolution or an NXDOMAIN entry of the "
+            "initial cache; NoNameservers iff every configured server proved broken for the current candidate; a broken server is "
+            "never re-asked for the same candidate; one immediate TCP retry on the same server after UDP truncation (trace "
+            "monitor accepted by every run); search/ndots candidate order; bounded CNAME chain with exact minimum TTL and negative "
+            "TTL from the closest SOA; the cache changes only under (candidate,type,class)/(candidate,ANY,class). Tied to the code "
+            "by scripted-nameserver correspondence on a virtual clock (sync and asyncio; model and spec both run in the driver).",
+    "note": "sync = async is tie-only: identical decision traces on every script plus a structural comparison of the two resolve "
+            "bodies (equal modulo await / backend.sleep / async_query(backend=)). Trusted: Lean kernel, statements in "
+            "lean/Props/C16.lean and the definition of spec in lean/Proofs/ResolverSpec.lean, harness/props/C16.py + "
+            "harness/vclock.py, harness/extract_C16.py.",
+    "technique": "Lean 4 proof (simulation of the state machine by an independent specification, state-machine invariants, "
+                 "potential-function termination, trace monitor) + model-vs-implementation correspondence on scripted fault sequences",
     "design_ref": "DESIGN.md §7 C16",
 }
 
@@ -844,6 +848,9 @@ def oracle(ctx, case, obs, rep):
 def eval_case(ctx: Ctx, c: dict, gen=None):
     k = c["kind"]
     rep = {"kind": k, "case": c}
+    if k == "structural":
+        structural_sync_async(ctx)
+        return False
     if k == "run":
         line, obs, tokens = run_impl(c, "sync", gen)
         # from here on the script is fixed
@@ -1171,8 +1178,81 @@ def exhaustive(ctx: Ctx, maxlen: int):
                 ctx.count("exhaustive")
 
 
+# ------------------------------------------------------------------------------------------------
+# sync = async, structural part of the tie: the two `resolve` bodies must be the same program up to `await`,
+# the backend's sleep, `async_query(..., backend=backend)` and the backend default
+# ------------------------------------------------------------------------------------------------
+def _normalised_resolve_body(fn, is_async):
+    import ast
+    import inspect
+    import textwrap
+
+    tree = ast.parse(textwrap.dedent(inspect.getsource(fn)))
+    f = tree.body[0]
+    body = list(f.body)
+    if body and isinstance(body[0], ast.Expr) and isinstance(getattr(body[0], "value", None), ast.Constant) \
+            and isinstance(body[0].value.value, str):
+        body = body[1:]  # docstring
+
+    class Norm(ast.NodeTransformer):
+        def visit_Await(self, node):
+            return self.visit(node.value)
+
+        def visit_Attribute(self, node):
+            self.generic_visit(node)
+            src = ast.unparse(node)
+            if src == "dns.resolver._Resolution":
+                return ast.Name(id="_Resolution", ctx=node.ctx)
+            if src == "backend.sleep":
+                return ast.Attribute(value=ast.Name(id="time", ctx=ast.Load()), attr="sleep", ctx=node.ctx)
+            if src == "nameserver.async_query":
+                return ast.Attribute(value=node.value, attr="query", ctx=node.ctx)
+            return node
+
+        def visit_Call(self, node):
+            self.generic_visit(node)
+            node.keywords = [k for k in node.keywords if not (k.arg == "backend" and ast.unparse(k.value) == "backend")]
+            return node
+
+        def visit_If(self, node):
+            if ast.unparse(node.test) == "not backend" and len(node.body) == 1 and not node.orelse \
+                    and ast.unparse(node.body[0]).startswith("backend = dns.asyncbackend.get_default_backend"):
+                return None
+            self.generic_visit(node)
+            return node
+
+    out = []
+    for st in body:
+        st = Norm().visit(st) if is_async else st
+        if st is not None:
+            out.append(ast.unparse(ast.fix_missing_locations(st)))
+    return "\n".join(out).split("\n")
+
+
+def structural_sync_async(ctx: Ctx):
+    """fail the tie if the asyncio `resolve` is not textually the synchronous one modulo await/backend calls"""
+    import difflib
+
+    try:
+        a = _normalised_resolve_body(dns.resolver.Resolver.resolve, False)
+        b = _normalised_resolve_body(dns.asyncresolver.Resolver.resolve, True)
+    except BaseException as e:  # source not available or not parseable: nothing can be concluded structurally
+        ctx.notes.append(f"structural sync/async comparison not possible: {e!r}")
+        ctx.extra["async_loop_structurally_equal"] = None
+        return
+    same = a == b
+    ctx.extra["async_loop_structurally_equal"] = same
+    ctx.count("async.structural." + ("equal" if same else "differs"))
+    if not same:
+        diff = list(difflib.unified_diff(a, b, "dns/resolver.py Resolver.resolve", "dns/asyncresolver.py Resolver.resolve (normalised)", lineterm=""))
+        ctx.fail("C16/async/loop-text-differs",
+                 "the asyncio resolve loop is not the synchronous one modulo await/backend calls: " + " | ".join(diff[:12]),
+                 {"kind": "structural", "case": {"kind": "structural"}, "diff": diff})
+
+
 def run(ctx: Ctx):
     ctx.extra["backoff_sleep_variant"] = probe_variant()
+    structural_sync_async(ctx)
     for p in sorted(glob.glob(os.path.join(VERIF, "corpus", "C16", "*.json"))):
         c = json.load(open(p))
         ctx.case(("corpus", p), sample=None)
